@@ -325,7 +325,7 @@ def schema_to_struct_code(
     """
     body = [f"class {struct_name}(Structure):"]
     body += (
-        [f'    """\n    {schema.get("description")}\n    """\n']
+        [f'    {schema.get("description")!r}\n']
         if "description" in schema
         else []
     )
